@@ -407,6 +407,11 @@ def patStaleZeroWindow (h : Spec.History) : Bool :=
       | none => acc
     | _ => acc) ([], false)).2
 
+/-- F-C06-4, second form: a dropped pure ACK advertised an open window (a window update is never
+    repeated, and nothing probes a closed window). -/
+def patLostWindowUpdate (h : Spec.History) : Bool :=
+  (droppedPkts h).any fun p => isPureAck p && p.seg.window > 0
+
 def patLostPureAck (h : Spec.History) : Bool := (droppedPkts h).any isPureAck
 def patZeroWindow (h : Spec.History) : Bool := (emitted h).any fun e => e.2.udp.isNone && e.2.seg.flags.ack && !e.2.seg.flags.rst && e.2.seg.window == 0
 def patLostRst (h : Spec.History) : Bool := (droppedPkts h).any fun p => p.seg.flags.rst
@@ -439,7 +444,8 @@ def oracle (prop : String) (c : Case) (h : Spec.History) (closedWin hsRetx : Boo
       if c.live then
         match (if c.fixture then Spec.c06LivenessE2E c.cfg c.e2eDrops c.e2eHold h else Spec.c06Liveness c.cfg h) with
         | some m =>
-          let pat := if closedWin && patStaleZeroWindow h then "F-C06-4" else if closedWin then "F-C06-2"
+          let pat := if closedWin && (patStaleZeroWindow h || patLostWindowUpdate h) then "F-C06-4"
+                     else if closedWin then "F-C06-2"
                      else if patLostHandshakeAck h then "F-C06-3"
                      else if patLostPureAck h then "F-C06-1" else if hsRetx then "F-C06-5" else "none"
           { fail := some m, pattern := pat }
@@ -526,14 +532,26 @@ def covTags (c : Case) (h : Spec.History) : List String := Id.run do
 
 /-! ### main loop -/
 
-def processCase (prop : String) (c : Case) : IO (Bool × Bool) := do
+/-- Copy the repair flags of `src` onto `cfg`. -/
+def withFlags (cfg src : Cfg) : Cfg :=
+  { cfg with fixReapOrphan := src.fixReapOrphan, fixReack := src.fixReack, fixWinUpdate := src.fixWinUpdate,
+             fixHsReset := src.fixHsReset, fixRstAfterClose := src.fixRstAfterClose }
+
+def processCase (prop : String) (c : Case) (memo : IO.Ref (Option Cfg)) : IO (Bool × Bool) := do
   let k0 : KRes := if c.nok then { ok := true } else replay c.cfg c
+  -- on a mismatch with the code-as-found model try the repaired variants, the one that matched the
+  -- previous case first
+  let last ← memo.get
+  let cands : List Cfg := (match last with | some f => [withFlags c.cfg f] | none => []) ++ fixedVariants c.cfg
+  let found := if c.nok || k0.ok then none
+    else cands.findSome? fun cfg => let r := replay cfg c; if r.ok then some (cfg, r) else none
+  if let some (cfg, _) := found then memo.set (some cfg)
   let (kOk, variant, kr, kgood) :=
     if c.nok then (true, "-", k0, k0)
     else if k0.ok then (true, "faithful", k0, k0)
     else
-      match (fixedVariants c.cfg).findSome? fun cfg => let r := replay cfg c; if r.ok then some r else none with
-      | some r => (true, "fixed", k0, r)
+      match found with
+      | some (_, r) => (true, "fixed", k0, r)
       | none => (false, "-", k0, k0)
   let h := history c
   let o := oracle prop c h (kOk && kgood.closedWin) (kOk && kgood.hsRetx) (if kOk then kgood.leftover else [])
@@ -545,7 +563,7 @@ def processCase (prop : String) (c : Case) : IO (Bool × Bool) := do
   IO.println s!"CASE {c.n} K={if kOk then "ok" else "mismatch"} O={if o.fail.isNone then "ok" else "fail"} variant={variant} pattern={o.pattern} line={if kOk then 0 else kr.line} cov={covs} detail={if detail.isEmpty then "-" else detail}"
   return (kOk, o.fail.isNone)
 
-partial def loop (prop : String) (h : IO.FS.Stream) (lineNo : Nat) (cur : Option Case)
+partial def loop (prop : String) (memo : IO.Ref (Option Cfg)) (h : IO.FS.Stream) (lineNo : Nat) (cur : Option Case)
     (cases kmis ofail : Nat) : IO (Nat × Nat × Nat) := do
   let line ← h.getLine
   if line.isEmpty then
@@ -555,27 +573,27 @@ partial def loop (prop : String) (h : IO.FS.Stream) (lineNo : Nat) (cur : Option
   match toks with
   | "CASE" :: n :: rest =>
     let fam := (rest.findSome? fun t => kv t "family").getD ""
-    loop prop h (lineNo + 1) (some { n := n.toNat?.getD 0, family := fam }) cases kmis ofail
+    loop prop memo h (lineNo + 1) (some { n := n.toNat?.getD 0, family := fam }) cases kmis ofail
   | "CFG" :: rest =>
-    loop prop h (lineNo + 1) (cur.map fun c => parseCfg c rest) cases kmis ofail
+    loop prop memo h (lineNo + 1) (cur.map fun c => parseCfg c rest) cases kmis ofail
   | "OP" :: rest =>
     let rec' : OpRec := { line := lineNo, text := l, op := parseOp rest, obs := #[] }
-    loop prop h (lineNo + 1) (cur.map fun c => { c with ops := c.ops.push rec' }) cases kmis ofail
+    loop prop memo h (lineNo + 1) (cur.map fun c => { c with ops := c.ops.push rec' }) cases kmis ofail
   | "OBS" :: "panic" :: rest =>
-    loop prop h (lineNo + 1) (cur.map fun c => { c with panic := some (" ".intercalate rest) }) cases kmis ofail
+    loop prop memo h (lineNo + 1) (cur.map fun c => { c with panic := some (" ".intercalate rest) }) cases kmis ofail
   | "OBS" :: _ =>
     let txt := sdrop l 4
     let cur' := cur.map fun c =>
       if c.ops.isEmpty then c
       else { c with ops := c.ops.modify (c.ops.size - 1) fun r => { r with obs := r.obs.push txt } }
-    loop prop h (lineNo + 1) cur' cases kmis ofail
+    loop prop memo h (lineNo + 1) cur' cases kmis ofail
   | ["END"] =>
     match cur with
     | some c =>
-      let (k, o) ← processCase prop c
-      loop prop h (lineNo + 1) none (cases + 1) (if k then kmis else kmis + 1) (if o then ofail else ofail + 1)
-    | none => loop prop h (lineNo + 1) none cases kmis ofail
-  | _ => loop prop h (lineNo + 1) cur cases kmis ofail
+      let (k, o) ← processCase prop c memo
+      loop prop memo h (lineNo + 1) none (cases + 1) (if k then kmis else kmis + 1) (if o then ofail else ofail + 1)
+    | none => loop prop memo h (lineNo + 1) none cases kmis ofail
+  | _ => loop prop memo h (lineNo + 1) cur cases kmis ofail
 
 end Drv
 
@@ -583,7 +601,8 @@ def main (args : List String) : IO UInt32 := do
   match args with
   | [prop, file] =>
     let hd ← IO.FS.Handle.mk file IO.FS.Mode.read
-    let (cases, kmis, ofail) ← Drv.loop prop (IO.FS.Stream.ofHandle hd) 1 none 0 0 0
+    let memo ← IO.mkRef (none : Option Cfg)
+    let (cases, kmis, ofail) ← Drv.loop prop memo (IO.FS.Stream.ofHandle hd) 1 none 0 0 0
     IO.println s!"SUMMARY cases={cases} kmismatch={kmis} ofail={ofail}"
     return 0
   | _ =>
